@@ -23,10 +23,13 @@
                                                                                           C16_rounds: the same after ANY finished batches were
                                                                                           reported with set_observed, and no plate of a finished
                                                                                           batch is ever allowed again
+  8.  glue: every batch id >= 0 (0 included) reaches the policy, never offered again ..... C16_batch_ids_reach_policy, C16_selectNext_histories
+  Regression (not a clause): S7-C16 placeholder filter `> 0` ............................ C16_S7_gt_filter_counterexample (vs C16_glue_witness_ok)
   harness-only: numpy views behind Plate.sample_ids / n_unique_samples / is_observed (container fidelity), argmin of the scores (C06).
 -/
 import Batchie.Lemmas.Policy
 import Batchie.Lemmas.PolicyRounds
+import Batchie.Lemmas.PolicyGlue
 
 namespace Batchie.Props.C16
 
@@ -150,6 +153,73 @@ theorem C16_rounds (k : Nat) (hk : 1 ≤ k) (s0 : List Plate)
   have := Batchie.Lemmas.PolicyRounds.afterRounds_observed done s0 p.id (Or.inl ⟨b, hb, hin⟩) p hmem rfl
   rw [this] at hobs
   cases hobs
+
+/-! ### the id glue of `select_next_plate` (seeded change S7-C16) -/
+
+/-- **Every batch id ≥ 0 -- plate id 0 included -- reaches the policy** (S7-C16, positive half).  `selectNext` is
+    `select_next_plate` with the batch ids as the caller hands them over (Python ints, `-1` placeholders allowed; the code applies
+    no filter).  For every screen and every id list: the plates handed to the policy as the batch are exactly the plates whose id
+    occurs in the list, the membership tests amount to the ids `≥ 0` (`batchFilter`, which keeps 0), so `selectNext` IS the
+    `eligibleOf` of the history theorems; and no plate whose id is in the list is ever offered again as a candidate. -/
+theorem C16_batch_ids_reach_policy (k : Nat) (screen : List Plate) (ids : List Int) :
+    selectNext k screen ids = eligibleOf k screen (batchFilter ids) ∧
+    (∀ i : Nat, i ∈ batchFilter ids ↔ (i : Int) ∈ ids) ∧
+    (∀ p ∈ screen, (p.id : Int) ∈ ids → p ∈ batchPlatesRaw screen ids) ∧
+    (∀ el, selectNext k screen ids = .ok el → ∀ p ∈ el, p ∈ screen ∧ p.observed = false ∧ (p.id : Int) ∉ ids) := by
+  refine ⟨Batchie.Lemmas.PolicyGlue.selectNext_eq k screen ids, fun i => Batchie.Lemmas.PolicyGlue.mem_batchFilter, ?_, ?_⟩
+  · intro p hp hid
+    unfold batchPlatesRaw
+    exact List.mem_filter.2 ⟨hp, by simpa using hid⟩
+  · intro el hel p hp
+    rw [Batchie.Lemmas.PolicyGlue.selectNext_eq] at hel
+    obtain ⟨h1, h2, h3⟩ := C16_subset_screen k screen _ el hel p hp
+    exact ⟨h1, h2, fun h => h3 (Batchie.Lemmas.PolicyGlue.mem_batchFilter.2 h)⟩
+
+/-- ... hence the k-per-sample invariants hold for the composed function: along every selection history (told in terms of the ids
+    that count, `batchFilter ids`) the lists `select_next_plate` builds from the RAW id list satisfy the invariant, and a batch of
+    `m·k` plates gives every sample zero or exactly `k`. -/
+theorem C16_selectNext_histories (k : Nat) (hk : 1 ≤ k) (screen : List Plate)
+    (hS : (screen.map (·.id)).Nodup) (h1 : ∀ p ∈ screen, p.observed = false → p.single = true)
+    (ids : List Int) (h : History k screen (batchFilter ids)) :
+    Inv k (batchPlatesRaw screen ids) (candidatesRaw screen ids) ∧
+    ∀ m, (batchPlatesRaw screen ids).length = m * k →
+      ∀ s, cnt (batchPlatesRaw screen ids) s = 0 ∨ cnt (batchPlatesRaw screen ids) s = k := by
+  rw [Batchie.Lemmas.PolicyGlue.batchPlatesRaw_eq, Batchie.Lemmas.PolicyGlue.candidatesRaw_eq]
+  exact C16_select_histories k hk screen hS h1 _ h
+
+/-- witness screen for the regression: plates 0 and 1 belong to sample 0, plate 2 to sample 1 -/
+def glueWitness : List Plate := [⟨0, [0], false⟩, ⟨1, [0], false⟩, ⟨2, [1], false⟩]
+
+/-- the code in /repo on the witness (k = 1, plate 0 already in the batch): sample 0 is closed, only plate 2 is allowed -/
+theorem C16_glue_witness_ok : selectNext 1 glueWitness [0] = .ok [⟨2, [1], false⟩] := by
+  rw [Batchie.Lemmas.PolicyGlue.selectNext_eq]
+  have e : batchFilter [0] = [0] := by decide
+  rw [e]
+  unfold eligibleOf
+  rw [candidates_of_sorted (by decide)]
+  rfl
+
+/-- **Regression (S7-C16, not a clause):** with the placeholder filter written `> 0`, plate id 0 drops out of the batch before
+    the policy sees it: on the witness (k = 1, batch = [0]) plate 0 itself is offered again and so is plate 1, a SECOND plate of
+    sample 0 -- accepting it gives sample 0 two plates in a batch with k = 1, and the answer differs from the real code's. -/
+theorem C16_S7_gt_filter_counterexample :
+    selectNextGt 1 glueWitness [0] = .ok glueWitness ∧
+    (⟨0, [0], false⟩ : Plate) ∈ glueWitness ∧ (⟨1, [0], false⟩ : Plate) ∈ glueWitness ∧
+    cnt (⟨1, [0], false⟩ :: batchPlatesRaw glueWitness [0]) 0 = 2 ∧
+    selectNextGt 1 glueWitness [0] ≠ selectNext 1 glueWitness [0] := by
+  have hgt : selectNextGt 1 glueWitness [0] = .ok glueWitness := by
+    unfold selectNextGt
+    have e0 : batchFilterGt [0] = [] := by decide
+    rw [e0, Batchie.Lemmas.PolicyGlue.selectNext_eq]
+    have e : batchFilter [] = [] := by decide
+    rw [e]
+    unfold eligibleOf
+    rw [candidates_of_sorted (by decide)]
+    rfl
+  refine ⟨hgt, by decide, by decide, by decide, ?_⟩
+  rw [hgt, C16_glue_witness_ok]
+  intro h
+  cases h
 
 /-- **Multi-sample plates are refused**: the filter raises `ValueError` iff some plate among the
     batch and the remaining plates does not contain exactly one sample. -/
